@@ -16,7 +16,7 @@ func init() {
 	// a stratum for issuers verified through wrapped verifiers (did:web accounts with a resolvable key,
 	// a did:web service): tokens altered after signing, tokens signed by another key
 	c01w := worldGen("C01", 300, 6000, genOpts{minDepth: 1, maxDepth: 4, sessions: true, sessionPct: 100, webAccount: true, properSession: false,
-		kinds: []string{"tamper-wrapped", "tamper-wrapped", "wrongkey-account", "none"}})
+		kinds: []string{"tamper-wrapped", "tamper-wrapped", "wrongkey-account", "none", "misaligned2", "misaligned2"}})
 	gens["C01"] = func(cfg Config, emit Emit) error {
 		if err := c01(cfg, emit); err != nil {
 			return err
@@ -84,7 +84,7 @@ func init() {
 			emit("serve", []string{"C04", mustJSON(w)}, "served/"+class, true)
 		})
 		// the same session validated before and after the attestation's window boundary passes
-		genSeq(cfg, emit, "C04", 30, 300, 100)
+		genSeq(cfg, emit, "C04", 36, 360, 100)
 		return nil
 	}
 	// C05: revocation of any delegation of the chain (and of decoys)
@@ -113,6 +113,14 @@ func init() {
 	gens["C06"] = func(cfg Config, emit Emit) error {
 		if err := c06(cfg, emit); err != nil {
 			return err
+		}
+		// an account whose key the resolver knows, with an expired / foreign / stranger's attestation beside
+		// its token: the chain is valid through the resolver all the same
+		for _, av := range []int{7, 1, 2, 3} {
+			if err := worldGen("C06", 60, 1200, genOpts{minDepth: 1, maxDepth: 4, sessions: true, sessionPct: 100, webAccount: true, attVariant: av,
+				kinds: []string{"none", "none", "permute"}})(cfg, emit); err != nil {
+				return err
+			}
 		}
 		// the readers a capability is parsed with must not remember each other's verdicts
 		genDidRead(cfg, emit)
